@@ -7,6 +7,8 @@ use serde_json::Value;
 pub mod bcommon;
 pub mod c01;
 pub mod c04;
+pub mod c06;
+pub mod c12;
 pub mod c16;
 pub mod c17;
 
@@ -83,6 +85,9 @@ pub fn run_check(id: &str, tier: &str) -> i32 {
     match id {
         "C01" => c01::run(tier),
         "C04" => c04::run(tier),
+        "C06" => c06::run(tier),
+        "C12" => c12::run_c12(tier),
+        "C13" => c12::run_c13(tier),
         "C16" => c16::run(tier),
         "C17" => c17::run(tier),
         _ => {
@@ -106,6 +111,9 @@ pub fn run_replay(path: &str) -> i32 {
     match prop.as_str() {
         "C01" => c01::replay(&f),
         "C04" => c04::replay(&f),
+        "C06" => c06::replay(&f),
+        "C12" => c12::replay_c12(&f),
+        "C13" => c12::replay_c13(&f),
         "C16" => c16::replay(&f),
         "C17" => c17::replay(&f),
         _ => {
